@@ -182,8 +182,11 @@ def check_mode(case, ctx):
             ctx.fail('C01.modes/textbook:%s:q' % cname, 'q=%r expected exp(%r)' % (qv, r['lnq']))
     if r.get('lnq_noZPE') is not None:
         qv = float(obj.get_q(T=T, include_ZPE=False))
-        ctx.close('C01.modes/textbook:%s:q-noZPE' % cname, math.log(qv), r['lnq_noZPE'], rtol=tol,
-                  atol=tol * (1 + abs(r['lnq_noZPE'])))
+        if qv > 0:
+            ctx.close('C01.modes/textbook:%s:q-noZPE' % cname, math.log(qv), r['lnq_noZPE'], rtol=tol,
+                      atol=tol * (1 + abs(r['lnq_noZPE'])))
+        else:
+            ctx.fail('C01.modes/textbook:%s:q-noZPE' % cname, 'q=%r expected exp(%r)' % (qv, r['lnq_noZPE']))
     if r.get('ZPE_eV') is not None:
         ctx.close('C01.modes/textbook:%s:ZPE' % cname, obj.get_ZPE(), r['ZPE_eV'], rtol=1e-9, atol=1e-12)
     # derivative relations on the mode itself
@@ -465,6 +468,77 @@ def enum_g2(tier):
                    'perm_seed': [(7 * i + 3 * k + 5 * j) % 97 for j in range(30)], 'reverse': k % 2 == 1}
 
 
+@st.composite
+def extra_case(draw):
+    kind = draw(st.sampled_from(['xlsr', 'const', 'elec']))
+    T = draw(gen.T_st)
+    if kind == 'xlsr':
+        n = draw(st.integers(1, 3))
+        fl = lambda lo, hi: [draw(st.floats(lo, hi)) for _ in range(n)]
+        return {'kind': kind, 'T': T, 'slopes': fl(0, 1), 'dE': fl(-150, 0), 'E_surf': fl(-100, 0), 'E_gas': fl(-100, 0),
+                'intercept': draw(st.floats(-40, 40)), 'defaults': draw(st.booleans())}
+    if kind == 'const':
+        return {'kind': kind, 'T': T, 'vals': {k: draw(st.floats(-5, 5)) for k in ('Cv', 'Cp', 'U', 'H', 'S', 'F', 'G')},
+                'q': draw(st.floats(1e-3, 1e3))}
+    return {'kind': kind, 'T': T, 'E': draw(st.floats(-50, 0)), 'D0': draw(st.floats(0.01, 10)),
+            'spin': draw(st.sampled_from([0, 0.5, 1, 1.5]))}
+
+
+def check_extra(case, ctx):
+    """model classes of the C01 quantifier that are not thermodynamic modes of their own: extended linear scaling, user-set
+    constant modes (their unit convention), electronic ground state defaults and dissociation-energy option"""
+    K = consts()
+    T = case['T']
+    ctx.nontrivial(True)
+    ctx.label('extra:' + case['kind'])
+    if case['kind'] == 'xlsr':
+        from pmutt.statmech.lsr import ExtendedLSR
+        kw = {}
+        if not case['defaults']:
+            kw = {'surf_species': list(case['E_surf']), 'gas_species': list(case['E_gas'])}
+        obj = ExtendedLSR(slopes=list(case['slopes']), intercept=case['intercept'], reactions=list(case['dE']), **kw)
+        terms = [s_ * d_ for s_, d_ in zip(case['slopes'], case['dE'])] + [case['intercept']]
+        if not case['defaults']:       # documented default of surface and gas energies: 0
+            terms += list(case['E_surf']) + list(case['E_gas'])
+        e = math.fsum(terms) / (K['R_kcal'] * T)
+        sc = math.fsum(abs(t) for t in terms) / (K['R_kcal'] * T)
+        for g in ('get_UoRT', 'get_HoRT', 'get_FoRT', 'get_GoRT'):
+            ctx.close('C01.extra/ExtendedLSR:%s' % g, getattr(obj, g)(T=T), e, rtol=0, atol=3e-4 * (1 + sc), detail='T=%r' % T)
+        for g in ('get_CvoR', 'get_CpoR', 'get_SoR'):
+            if getattr(obj, g)() != 0:
+                ctx.fail('C01.extra/ExtendedLSR:%s-nonzero' % g, repr(getattr(obj, g)()))
+        # the one-reaction LSR with its documented defaults (surface and gas energies 0)
+        from pmutt.statmech.lsr import LSR
+        one = LSR(slope=case['slopes'][0], intercept=case['intercept'], reaction=case['dE'][0])
+        e1 = (case['slopes'][0] * case['dE'][0] + case['intercept']) / (K['R_kcal'] * T)
+        ctx.close('C01.extra/LSR-defaults', one.get_UoRT(T=T), e1, rtol=0,
+                  atol=3e-4 * (1 + (abs(case['slopes'][0] * case['dE'][0]) + abs(case['intercept'])) / (K['R_kcal'] * T)))
+        return
+    if case['kind'] == 'const':
+        from pmutt.statmech import ConstantMode
+        obj = ConstantMode(q=case['q'], **case['vals'])
+        v = case['vals']
+        ctx.close('C01.extra/ConstantMode:q', obj.get_q(), case['q'], rtol=0)
+        for name, key, withT in (('get_CvoR', 'Cv', False), ('get_CpoR', 'Cp', False), ('get_SoR', 'S', False),
+                                 ('get_UoRT', 'U', True), ('get_HoRT', 'H', True), ('get_FoRT', 'F', True), ('get_GoRT', 'G', True)):
+            got = gen.call(getattr(obj, name), T=T)
+            ctx.close('C01.extra/ConstantMode:%s' % name, got, v[key] / (K['kb_eV'] * (T if withT else 1.0)), rtol=1e-12)
+        return
+    from pmutt.statmech.elec import GroundStateElec
+    a = GroundStateElec(potentialenergy=case['E'], spin=case['spin'], D0=case['D0'])
+    b = GroundStateElec(potentialenergy=case['D0'], spin=case['spin'])
+    # with a dissociation energy the electronic partition function uses it in place of the potential energy
+    qa, qb = a.get_q(T=T, ignore_q_elec=False), b.get_q(T=T, ignore_q_elec=False)
+    ctx.close('C01.extra/GroundStateElec:q(D0)', qa, qb, rtol=1e-12)
+    if a.get_q(T=T) != 1.0:
+        ctx.fail('C01.extra/GroundStateElec:q-ignored-by-default', repr(a.get_q(T=T)))
+    # documented default spin: 0 (singlet, no electronic entropy)
+    d = GroundStateElec(potentialenergy=case['E'])
+    if d.get_SoR() != 0:
+        ctx.fail('C01.extra/GroundStateElec:default-spin', 'S/R = %r without a spin' % d.get_SoR())
+    ctx.close('C01.extra/GroundStateElec:S', a.get_SoR(), math.log(2 * case['spin'] + 1), rtol=1e-12, atol=1e-15)
+
+
 CLAUSES = [
     Clause('C01.modes', mode_case(), check_mode, 1000, 6000,
            'one mode object (FreeTrans n=1-3, HarmonicVib with 0-12 wavenumbers incl. imaginary dropped/substituted, QRRHOVib, '
@@ -477,6 +551,10 @@ CLAUSES = [
            'PiecewiseCovEffect models, optional References) x T, P, P2 x use_references/raise_error/raise_warning: identities, '
            'H-U, S(P2)-S(P1), temperature derivatives, verbose form has 6+N entries whose sum/product is the total, EoRT (+ZPE). '
            'Non-trivial = >= 2 non-empty modes', quick_shards=4),
+    Clause('C01.extra', extra_case(), check_extra, 300, 3000,
+           'ExtendedLSR with 1-3 reference reactions given as energies (with and without surface/gas energies: documented default 0), '
+           'ConstantMode (attributes in eV, eV/K -> dimensionless by kB), GroundStateElec (q ignored by default, D0 replaces the '
+           'potential energy in q, default spin 0): closed forms typed in the harness'),
     Clause('C01.sigma', None, check_sigma, 0, 0,
            'exhaustive: 13 documented point-group labels x {linear, nonlinear}: label gives the same q and S as the tabulated number',
            enumerate=enum_sigma),
